@@ -702,3 +702,21 @@ func (g *Gen) immutableKey(key string) bool {
 	base := strings.TrimSuffix(strings.TrimSuffix(key, ".tag"), ".pay")
 	return g.W.constErr[base]
 }
+
+// elemIdx is the block index of element i of a view starting at off.  It is written with an
+// uninterpreted function idx(off, i) = off + i (axiom instantiated per term) so that E-matching sees the
+// element index i as a sub-term instead of an arithmetic sum that the solver flattens.
+func (g *Gen) elemIdx(off, i string) string {
+	if off == "0" {
+		return i
+	}
+	if i == "0" {
+		return off
+	}
+	if !g.declared["idx"] {
+		g.declared["idx"] = true
+		g.emit("(declare-fun idx (Int Int) Int)")
+		g.emit("(assert (forall ((o Int) (i Int)) (! (= (idx o i) (+ o i)) :pattern ((idx o i)))))")
+	}
+	return "(idx " + off + " " + i + ")"
+}
